@@ -218,7 +218,7 @@ fn guard_ok(row: &[Value], delim_chars: &str) -> bool {
 
 /// the number tokens of a JSON text in document order (serde_json's own f64 parsing is not exact
 /// without `float_roundtrip`, so the tokens are read back with Rust's `str::parse`)
-fn number_tokens(text: &str) -> Vec<String> {
+pub fn number_tokens(text: &str) -> Vec<String> {
     let b = text.as_bytes();
     let mut out = Vec::new();
     let mut i = 0;
